@@ -34,6 +34,7 @@ func main() {
 	if tier != "thorough" {
 		tier = "quick"
 	}
+	checks.EnsureReplay()
 	switch os.Args[1] {
 	case "run":
 		ch := checks.Registry[os.Args[2]]
